@@ -3,15 +3,15 @@
 Technique: bounded-exhaustive enumeration, no sampling.
 
 Every program of gen/prune_c08.py is compiled twice, with `scenic.syntax.translator.usePruning`
-off (U) and on (P, under a SIGALRM watchdog).  The three pruning passes are observed through
-wrappers (which pass changed which object's position).
+off (U) and on (P, under a CPU-time watchdog).  The three pruning passes are observed through
+wrappers (which pass replaced which object's position).
 
 Stage A (position samplers).  For every object whose position is a point drawn uniformly in
 a region (optionally plus an offset), the *sampler of that region* (`uniformPointInner`) is
 driven through the complete N^k midpoint lattice of its k continuous random inputs and all
-of its discrete branches (triangle choice of `PolygonalRegion`, face pick, voxel pick ...)
-under the seam below; one attempt per execution (retry loops are cut).  This gives a finite
-list of candidate base points per object, for U (original region) and for P (pruned region).
+of its discrete branches (triangle choice of `PolygonalRegion`, ...) under the seam below; one
+attempt per execution (retry loops are cut).  This gives a finite list of candidate base
+points per object, for U (original region) and for P (pruned region).
 
 Stage B (scenes).  A lattice scene = one candidate base point per positioned object x one
 value of every other random input (Range -> endpoint-inclusive quantile lattice, Options /
@@ -20,20 +20,29 @@ Scenic's own `Samplable.sampleAll(scenario.dependencies)` (the position distribu
 answer with the chosen candidate, the other draws are answered by the seam) and judged by
 Scenic's own `scenario.checker.checkRequirements(sample)`.  For every candidate c of every
 object the scenes containing c are enumerated until one is accepted (then c is *feasible*);
-all of them are enumerated when none is.
+all of them are enumerated when none is.  While one object is the focus (lattice N_pair) the
+other positioned objects run through a coarser lattice (N_partner).
 
 Oracle
  (1) no feasible scene is lost: every base point of an accepted U scene lies in the region
-     the pruned program samples from (the region of `obj.position._conditioned`), tested with
+     the pruned program samples from (the region of `obj.position._conditioned`; when that
+     region depends on other objects, its value in P under the same forced draws), tested with
      the region's own `containsPoint` and with an independent membership test computed here
      from the region's vertices (even-odd rule for polygons with holes, winding number for
      meshes); points closer than MARGIN*scale to the boundary are skipped and counted.
- (2) no scene is added: every candidate of the pruned region lies in the original region
-     (same two tests), and every accepted P scene is accepted by U when U's position
-     distributions and other random inputs are forced to the same values.
- (3) all non-positional properties of the compiled objects are structurally identical.
- (4) compiling with pruning fails only if U has no feasible lattice scene.
- (5) compiling with pruning finishes within WATCHDOG seconds.
+ (2) no scene is added: every base point of an accepted P scene lies in the original region
+     (same two tests), and the scene is accepted by U when U's position distributions and
+     other random inputs are forced to the same values.
+ (3) all non-positional properties of the compiled objects, the parameters and the requirement
+     lists are structurally identical.
+ (4) compiling with pruning fails only if U has no accepted lattice scene
+     (`infeasible-reported:*` for InvalidScenarioError, `compile-crash:<Type>:*` otherwise).
+ (5) compiling with pruning finishes within WATCHDOG seconds of CPU time (`hang:*`).
+
+Signatures: `<failure>:<pruning passes that changed the object>:<family>[<constructs in which
+the program differs from the family default>]`, e.g. `scene-lost:relheading:rh[dist=D!=c]`.
+Defects found on the pinned tree are reproduced by findings/c08_pruning_defects.py; a patch
+is proposed in findings/c08_proposed_fixes.patch.
 """
 
 from __future__ import annotations
@@ -1182,6 +1191,8 @@ def check_program(item):
             res["capped"] = res["capped"] or evP.capped
             for k, v in evP.errors.items():
                 bump("scene_evaluation_error:" + k, v)
+            if evP.first_error and not res["note"]:
+                res["note"] = "Scenic raised while checking a lattice scene of the pruned program: " + evP.first_error
 
         if nfeasible_scenes == 0:
             bump("no_feasible_scene")
